@@ -14,6 +14,7 @@
 From Coq Require Import List ZArith NArith Bool Arith.
 Import ListNotations.
 Require Import Gram.Model.Token Gram.Model.Tokenizer Gram.Model.Listing Gram.Spec.ListingSpec Gram.Proofs.ListingProofs Gram.Model.Grammar Gram.Model.Parser Gram.Model.ParserPost Gram.Proofs.RangeProofs.
+Require Import Gram.Proofs.PartitionProofs Gram.Proofs.ListingExact Gram.Proofs.ListingTokens.
 
 Theorem C15_listing_lines_exact : forall cs rs re, map lineno (listing cs rs re) = spec_linenos cs rs re.
 Proof. exact listing_lines_exact. Qed.
@@ -57,3 +58,85 @@ Check C15_root_spans_input : forall toks memo t, fst (fst (parse_stage1 toks mem
   exists first last, nth_error toks 0 = Some first /\ nth_error toks (length toks - 1) = Some last /\
                      prs (info t) = ps first /\ pre (info t) = pe last.
 Print Assumptions C15_root_spans_input.
+
+(* The marked section, character by character (Proofs/ListingExact.v): a character of a shown line is marked iff it
+   starts inside the reported range, is not trailing whitespace, and - unless the range starts strictly inside that
+   line - is not leading indentation; the text shown is the line without its trailing whitespace; the overline is
+   placed by counting CHARACTERS, so multi-byte text before or inside the section cannot misplace it; and token
+   spans - the ranges diagnostics carry - lie within the file on character boundaries. *)
+Theorem C15_marked_characters_exact : forall cs rs re s, Forall chr_ok cs -> In s (listing cs rs re) ->
+  exists pre l post,
+    kth_line cs (lineno s - 1) pre l post /\ ltext s = trimmed l /\
+    forall p c q, l = p ++ c :: q ->
+      (sec_start s <= bytes p < sec_end s <->
+       rs <= bytes pre + bytes p < re /\
+       ~ Forall blank (c :: q) /\
+       (rs <= bytes pre -> ~ Forall blank (p ++ [c]))).
+Proof. exact marked_characters_exact. Qed.
+Check C15_marked_characters_exact : forall cs rs re s, Forall chr_ok cs -> In s (listing cs rs re) ->
+  exists pre l post,
+    kth_line cs (lineno s - 1) pre l post /\ ltext s = trimmed l /\
+    forall p c q, l = p ++ c :: q ->
+      (sec_start s <= bytes p < sec_end s <->
+       rs <= bytes pre + bytes p < re /\
+       ~ Forall blank (c :: q) /\
+       (rs <= bytes pre -> ~ Forall blank (p ++ [c]))).
+Print Assumptions C15_marked_characters_exact.
+
+Theorem C15_sections_exact : forall cs rs re s, Forall chr_ok cs -> In s (listing cs rs re) ->
+  exists pre l post,
+    kth_line cs (lineno s - 1) pre l post /\
+    ltext s = trimmed l /\
+    (sec_start s, sec_end s) = spec_section l (bytes pre) rs re /\
+    bytes pre < re /\ rs <= bytes pre + bytes l.
+Proof. exact listing_exact. Qed.
+Check C15_sections_exact : forall cs rs re s, Forall chr_ok cs -> In s (listing cs rs re) ->
+  exists pre l post,
+    kth_line cs (lineno s - 1) pre l post /\
+    ltext s = trimmed l /\
+    (sec_start s, sec_end s) = spec_section l (bytes pre) rs re /\
+    bytes pre < re /\ rs <= bytes pre + bytes l.
+Print Assumptions C15_sections_exact.
+
+Theorem C15_overline_counts_characters : forall s p m q,
+  Forall pos_width (ltext s) ->
+  ltext s = p ++ m ++ q ->
+  list_sum (map width p) = sec_start s ->
+  list_sum (map width p) + list_sum (map width m) = sec_end s ->
+  overline s = (length p, length m).
+Proof. exact overline_counts_characters. Qed.
+Check C15_overline_counts_characters : forall s p m q,
+  Forall pos_width (ltext s) ->
+  ltext s = p ++ m ++ q ->
+  list_sum (map width p) = sec_start s ->
+  list_sum (map width p) + list_sum (map width m) = sec_end s ->
+  overline s = (length p, length m).
+Print Assumptions C15_overline_counts_characters.
+
+Theorem C15_token_spans_on_character_boundaries : forall gend cs ts t,
+  Forall ch_wf cs -> tokenize gend cs = Ok ts -> In t ts ->
+  boundary cs (tstart t) /\ boundary cs (tend t) /\ tstart t <= tend t /\ tend t <= bytes cs.
+Proof. exact token_spans_on_boundaries. Qed.
+Check C15_token_spans_on_character_boundaries : forall gend cs ts t,
+  Forall ch_wf cs -> tokenize gend cs = Ok ts -> In t ts ->
+  boundary cs (tstart t) /\ boundary cs (tend t) /\ tstart t <= tend t /\ tend t <= bytes cs.
+Print Assumptions C15_token_spans_on_character_boundaries.
+
+
+(* for the ranges diagnostics carry - from the start of one token to the end of another - at least one line is shown and
+   on every shown line the marked section is a well-formed interval (so the slice the implementation takes cannot be
+   reversed); `class_ok` is the contract that no alphabetic / alphanumeric character is also white space (a theorem for
+   ASCII, a stated contract on the Unicode classification beyond) *)
+Theorem C15_token_ranges_give_wellformed_sections : forall gend cs ts t1 t2,
+  Forall ch_wf cs -> Forall class_ok cs -> tokenize gend cs = Ok ts ->
+  In t1 ts -> In t2 ts -> tstart t1 <= tstart t2 ->
+  listing cs (tstart t1) (tend t2) <> [] /\
+  forall s, In s (listing cs (tstart t1) (tend t2)) -> sec_start s <= sec_end s.
+Proof. exact listing_sections_ordered_for_token_ranges. Qed.
+Check C15_token_ranges_give_wellformed_sections : forall gend cs ts t1 t2,
+  Forall ch_wf cs -> Forall class_ok cs -> tokenize gend cs = Ok ts ->
+  In t1 ts -> In t2 ts -> tstart t1 <= tstart t2 ->
+  listing cs (tstart t1) (tend t2) <> [] /\
+  forall s, In s (listing cs (tstart t1) (tend t2)) -> sec_start s <= sec_end s.
+Print Assumptions C15_token_ranges_give_wellformed_sections.
+
